@@ -101,6 +101,10 @@ def gen(tier):
     return cases
 
 
+def rng_e2e():
+    return random.Random(vlib.seed() * 8011 + 9)
+
+
 def merge(cases, r1, r2):
     """One record per (case, machcomb) with the graphs of both processes side by side."""
     out = []
@@ -129,6 +133,17 @@ def run(tier, replay=None):
     chk = vlib.Check('C08', tier)
     chk.assumptions = vlib.TRUSTED
     with vlib.WorkCopy('c08', harness=['c08']) as w:
+        if replay and 'scenario' in json.load(open(os.path.join(replay, 'replay.json')))['payload']:
+            import progs
+            sc = json.load(open(os.path.join(replay, 'replay.json')))['payload']['scenario']
+            sc['id'] = 1
+            with vlib.WorkCopy('c08p', harness=['prog']) as wp:
+                drecs, dpath = progs.execute(wp, [sc], workers=1, tag='c08diamond')
+                dv = progs.judge(chk, wp, dpath, len(drecs), name='progmon_diamond')
+                for b in dv['bad']:
+                    chk.violation({'what': 'WorkersCompileTransportedInvocations', 'clause': b['what']},
+                                  'result diamond: %s: %s' % (b['what'], str(b['detail'])[:300]), {'scenario': sc})
+            return chk.finish()
         if replay:
             cases = [json.load(open(os.path.join(replay, 'replay.json')))['payload']['case']]
             cases[0]['id'] = 1
@@ -169,6 +184,19 @@ def run(tier, replay=None):
         for c in cases:
             chk.case({k: c[k] for k in c if k != 'id'}, nontrivial=sum(len(p['nodes']) for p in c['progs']) > 3)
         chk.sample({'case': cases[0], 'driver_graph_first_invocation': merged[0]['invs'][0].get('graphs', [None])[0]})
+        # (e2e) workers that join later receive the invocations of a result diamond from the executor and must be able
+        # to compile them: in dependency order (bigmachineExecutor.compile)
+        if not replay:
+            import progs
+            with vlib.WorkCopy('c08p', harness=['prog']) as wp:
+                dscs = progs.diamond_scenarios(rng_e2e(), 4 if tier == 'quick' else 30, 1)
+                drecs, dpath = progs.execute(wp, dscs, workers=4, tag='c08diamond')
+                dv = progs.judge(chk, wp, dpath, len(drecs), name='progmon_diamond')
+                chk.cov['result_diamond_sessions'] = len(drecs)
+                for b in dv['bad']:
+                    chk.violation({'what': 'WorkersCompileTransportedInvocations', 'clause': b['what']},
+                                  'result diamond r1; r2=f(r1); r3=g(r2); r4=join(r1,r3) on machines started for r4: %s: %s' % (b['what'], str(b['detail'])[:300]),
+                                  {'scenario': dscs[b['id'] - 1]})
         for b in v['bad']:
             c = byid[b['id']]
             r = next(x for x in merged if x['id'] == b['id'] and x['machcomb'] == b['machcomb'])
